@@ -2615,6 +2615,8 @@ fn sort_plan_by_size(
     instrs: &[JoinStage],
     binding_info: &mut BindingInfo,
 ) {
+    #[cfg(egglog_verif)]
+    crate::verif::count(crate::verif::Path::plan_dynamic_resort);
     let mut last_pos = start;
     for i in start..instrs.len() {
         if matches!(
